@@ -180,6 +180,17 @@ pub fn run(run: &Run) {
             }
         }));
     }
+    {
+        let mut all = many_distinct_then_offender(false);
+        all.extend(pairs_at_block_cuts(false));
+        battery(run, "many_distinct_and_pairs_at_block_cuts", &all, &|s, l| PROFS.iter().all(|p| match check(run, *p, s, l) {
+            Ok(()) => true,
+            Err(v) => {
+                run.violate(v);
+                false
+            }
+        }));
+    }
     battery(run, "block_representatives", &block_representative_strings(), &|s, l| PROFS.iter().all(|p| match check(run, *p, s, l) {
         Ok(()) => true,
         Err(v) => {
